@@ -64,6 +64,8 @@ class Record:
         self.snap_before = None
         self.snap_after = None
         self.harness_error = None
+        self.hang = None
+        self.steps = None
 
     # ---- derived views -----------------------------------------------------
     def user_events(self):
@@ -186,8 +188,39 @@ def result_to_dict(res):
     return d
 
 
+class StepCapExceeded(BaseException):
+    """Raised by the step-counting tracer (C08.f): too many cobyqa source lines executed between two
+    consecutive peer events."""
+
+
+def _step_cap_tracer(ctx, cap):
+    state = {"n": 0, "events": 0, "max_gap": 0, "total": 0}
+    ctx.step_state = state
+
+    def local(frame, event, arg):
+        if event == "line":
+            ne = len(ctx.events)
+            if ne != state["events"]:
+                state["events"] = ne
+                state["max_gap"] = max(state["max_gap"], state["n"])
+                state["n"] = 0
+            state["n"] += 1
+            state["total"] += 1
+            if state["n"] > cap:
+                state["max_gap"] = state["n"]
+                raise StepCapExceeded("more than %d cobyqa source lines executed since the last peer event" % cap)
+        return local
+
+    def tracer(frame, event, arg):
+        if event == "call" and frame.f_code.co_filename.startswith(COBYQA_DIR):
+            return local
+        return None
+
+    return tracer
+
+
 def run_client(stmt, faults=(), world=None, cid=0, use_probes=True, shared=None, capture=True,
-               normalize_layout=False):
+               normalize_layout=False, step_cap=None):
     """Run one real minimize() call for the materialised statement."""
     world = world or World()
     faults = list(faults)
@@ -213,8 +246,16 @@ def run_client(stmt, faults=(), world=None, cid=0, use_probes=True, shared=None,
             else:
                 wlist = []
             try:
-                res = minimize(call.fun, call.x0, **call.kwargs())
+                if step_cap:
+                    sys.settrace(_step_cap_tracer(ctx, int(step_cap)))
+                try:
+                    res = minimize(call.fun, call.x0, **call.kwargs())
+                finally:
+                    if step_cap:
+                        sys.settrace(None)
                 rec.res = result_to_dict(res)
+            except StepCapExceeded as e:
+                rec.hang = str(e)
             except PeerError as e:
                 rec.harness_error = "peer: %s" % (_exc_info(e)["tb"],)
             except (KeyboardInterrupt, SystemExit, MemoryError):
@@ -229,6 +270,7 @@ def run_client(stmt, faults=(), world=None, cid=0, use_probes=True, shared=None,
     rec.events = ctx.events
     rec.probe = ctx.probe
     rec.fired = dict(ctx.fired)
+    rec.steps = getattr(ctx, "step_state", None)
     rec.ctx = ctx
     rec.call = call
     return rec
